@@ -312,7 +312,7 @@ Proof.
     destruct (filter (fun d => d <? w + wsize big) (adj_lcps (map e_nibs (s_ents s)))); [destruct Hin'|].
     cbn [length] in Hcnt. lia.
   - intros Hb. pose proof (process_inner_big _ _ _ _ _ _ _ _ _ Hp Hb) as Ht.
-    subst big. unfold w, sub_w in Hcnt. cbn [wsize] in Hcnt. lia.
+    subst big. subst w. unfold sub_w in *. cbn [wsize] in Hcnt. lia.
 Qed.
 
 (* ---------- the children partition the entries ---------- *)
@@ -331,12 +331,23 @@ Proof.
     assert (lsum (fun lb => if f e =? lb then 1 else 0) labels = 1) as ->; [|lia].
     specialize (Hin e (or_introl eq_refl)). clear IH. revert Hin.
     induction Hnd as [|lb ls Hnotin Hnd IHl]; intros Hin; [destruct Hin|].
-    rewrite lsum_cons. destruct Hin as [<-|Hin].
-    + rewrite Nat.eqb_refl.
+    rewrite lsum_cons. destruct Hin as [Heq|Hin].
+    + rewrite <- Heq at 1. rewrite Nat.eqb_refl.
       assert (lsum (fun lb0 => if f e =? lb0 then 1 else 0) ls = 0) as ->; [|lia].
       rewrite (lsum_ext _ (fun _ => 0)); [rewrite lsum_const; lia|].
       intros y Hy. destruct (Nat.eqb_spec (f e) y); [subst; contradiction|reflexivity].
     + destruct (Nat.eqb_spec (f e) lb); [subst; contradiction|]. rewrite IHl by exact Hin. lia.
+Qed.
+
+Lemma Forall2_in_r {A B} (R : A -> B -> Prop) l m :
+  Forall2 R l m -> Forall2 (fun x y => R x y /\ In y m) l m.
+Proof.
+  intros H.
+  assert (forall all, (forall y, In y m -> In y all) -> Forall2 (fun x y => R x y /\ In y all) l m) as G.
+  { induction H as [|x y l m Hxy _ IH]; intros all Hall; constructor.
+    - split; [exact Hxy|apply Hall; left; reflexivity].
+    - apply IH. intros y' Hy'. apply Hall. right. exact Hy'. }
+  apply G. auto.
 Qed.
 
 (* ---------- the count invariant of built trees ---------- *)
@@ -362,13 +373,7 @@ Proof.
         cbn [s_ents]. rewrite Forall_forall in *. intros e He. apply filter_In in He. apply Hk. tauto. }
     (* Forall2 with membership on the right *)
     assert (Forall2 (fun c k => trie_of o c k /\ In k kids) (map snd ch) kids) as Hkm'.
-    { clear - Hkm. revert Hkm. generalize (map snd ch) as cs. intros cs H.
-      assert (forall ks, Forall2 (trie_of o) cs ks -> forall all, (forall k, In k ks -> In k all) ->
-                Forall2 (fun c k => trie_of o c k /\ In k all) cs ks) as G.
-      { induction 1 as [|c k cs' ks' Hck _ IHf]; intros all Hall; constructor.
-        - split; [exact Hck|apply Hall; left; reflexivity].
-        - apply IHf. intros k' Hk'. apply Hall. right. exact Hk'. }
-      apply (G kids H kids). auto. }
+    { apply Forall2_in_r. exact Hkm. }
     assert (lsum (fun k => length (s_ents k)) kids = length (s_ents s)) as Hpart.
     { rewrite (if_kids _ _ _ _ _ F). rewrite lsum_map. cbn [s_ents].
       apply partition_count.
